@@ -127,6 +127,29 @@ def replay_history(model, params, role):
         hx = model.get(name, "")
         b = bytes.fromhex(hx)[:n] if isinstance(hx, str) else b""
         return b + bytes(n - len(b))
+    if params.get("via_socket"):
+        # the same history through the public API (PUB/SUB over tcp); messages carry a 3-byte trailer, which does not
+        # change which subscriptions are prefixes of them
+        ops, subs, want = [], {}, []
+        for i in range(k):
+            if f"op{i}" not in d:
+                break
+            t = topic(f"t{i}")
+            if d[f"op{i}"] == 0:
+                ops.append("s:" + t.hex())
+                subs[t] = subs.get(t, 0) + 1
+            else:
+                ops.append("u:" + t.hex())
+                if subs.get(t, 0) > 0:
+                    subs[t] -= 1
+            if f"m{i}.len" in d:
+                m = topic(f"m{i}")
+                ops.append("m:" + m.hex())
+                want.append("match " + str(any(c > 0 and m.startswith(tp) for tp, c in subs.items())).lower())
+        def pred2(out):
+            got = [l.strip() for l in out.splitlines() if l.startswith("match ")]
+            return got != want
+        return "sub_history " + " ".join(ops) + "\n", pred2, f"SUBSCRIBE/UNSUBSCRIBE options and published messages through the public API; prefix-multiset reference expects {want}"
     lines, subs, want = ["trie_new"], {}, []
     for i in range(k):
         if f"op{i}" not in d:
